@@ -179,7 +179,7 @@ func c12Writers(c *Ctx, v *vocab) {
 						n++
 						s := t.first(callTo(v.bkSetup))
 						sess := t.first(storeTo(v.fSession))
-						if s < 0 || s > i || t.errOutcome(t.Ev[s]) != -1 || sess < 0 || sess > i || h.objOf(e.RHS) != connWill {
+						if s < 0 || s > i || t.errOutcome(t.Ev[s]) != -1 || sess < 0 || sess > i || evRHSObj(h, e) != connWill {
 							ok, wt = false, t
 						}
 					}
@@ -820,11 +820,11 @@ func c13Setup(c *Ctx, v *vocab) {
 		n++
 		a, m := false, false
 		for _, e := range t.Ev {
-			if e.Kind == EvAssign && e.LObj == ac && h.objOf(e.RHS) == clientP {
+			if e.Kind == EvAssign && e.LObj == ac && evRHSObj(h, e) == clientP {
 				a = true
 			}
 			if e.Kind == EvAssign {
-				if ix, isIx := ast.Unparen(e.LHS).(*ast.IndexExpr); isIx && h.objOf(ix.X) == actives && h.objOf(ix.Index) == idP && h.objOf(e.RHS) == clientP {
+				if ix, isIx := ast.Unparen(e.LHS).(*ast.IndexExpr); isIx && h.objOf(ix.X) == actives && h.objOf(ix.Index) == idP && evRHSObj(h, e) == clientP {
 					m = true
 				}
 			}
@@ -1369,7 +1369,7 @@ func c20Suback(c *Ctx, v *vocab) {
 			for _, e := range t.Ev {
 				if e.Kind == EvAssign && e.LObj == idF {
 					nID++
-					if h.objOf(e.RHS) != reqID {
+					if evRHSObj(h, e) != reqID {
 						okID = false
 					}
 				}
